@@ -58,6 +58,14 @@ package configf
 //@   ensures [C04] (ok6 && err == nil) ==> st.Setdivision == (k6 == 0 ? decStrV(src, q5, 5, d0) : old(st.Setdivision))
 //@   ensures [C06] (ok5 && k6 == 2) ==> err != nil
 //@   ensures [C04] ok6 ==> (err == nil && readBuf.buf.i == q6)
+//@   site ).Read#0 assert [C04] $2 == 0 && $3 == true
+//@   site ).Read#1 assert [C04] $2 == 1 && $3 == true
+//@   site ).Read#2 assert [C04] $2 == 2 && $3 == true
+//@   site ).Read#3 assert [C04] $2 == 3 && $3 == true
+//@   site ).Read#4 assert [C04] $2 == 4 && $3 == false
+//@   site ).Read#5 assert [C04] $2 == 5 && $3 == false
+//@   sites ).Read = 6
+//@   sites ).Skip = 0
 //@   safety [C05]
 //
 //@ func (*ConfigInfo).ReadBlock
@@ -159,6 +167,14 @@ package configf
 //@   ensures [C04] (ok6 && err == nil) ==> st.Containername == (k6 == 0 ? decStrV(src, q5, 5, d0) : "")
 //@   ensures [C06] (ok5 && k6 == 2) ==> err != nil
 //@   ensures [C04] ok6 ==> (err == nil && readBuf.buf.i == q6)
+//@   site ).Read#0 assert [C04] $2 == 0 && $3 == true
+//@   site ).Read#1 assert [C04] $2 == 1 && $3 == false
+//@   site ).Read#2 assert [C04] $2 == 2 && $3 == false
+//@   site ).Read#3 assert [C04] $2 == 3 && $3 == false
+//@   site ).Read#4 assert [C04] $2 == 4 && $3 == false
+//@   site ).Read#5 assert [C04] $2 == 5 && $3 == false
+//@   sites ).Read = 6
+//@   sites ).Skip = 0
 //@   safety [C05]
 //
 //@ func (*GetConfigListInfo).ReadBlock
